@@ -117,6 +117,14 @@ def main(argv):
             res.append(('source-unmodified', shell_cc, rc, out))
             rc, out = legb.gxx(['-c', '-o', os.path.join(shim, 'shell.o')] + legb.includes(shim) + [os.path.join(shim, shell_cc)])
             res.append(('source-shim', shell_cc, rc, out))
+            # (d') ... and against a LEAN model header (declarations only, runtime facilities merely forward-declared): the shell
+            # files bring their own includes for everything they use
+            if rc == 0:
+                lean = wd.sub(f'lean{ci}')
+                legb.materialize(lean, files, pl, c['cfg'], shim=True)
+                open(os.path.join(lean, legb.orig_basename(c['cfg']) + '.hh'), 'w').write(MM.model_header_lean(pl))
+                rcl, outl = legb.gxx(['-fsyntax-only'] + legb.includes(lean) + [os.path.join(lean, shell_cc)])
+                res.append(('source-with-lean-model-header', shell_cc, rcl, outl))
             # (e) construct and use the shell from another translation unit; declared members are defined (link)
             if rc == 0:
                 drv = os.path.join(shim, 'use.cc')
